@@ -597,7 +597,7 @@ func (r *run) judge(tInvoke int64, mainStop *stopRec, labels map[string]bool) (r
 		}
 		// (3) not touched at all or written completely: nothing may stay marked as scheduled
 		if o.scheduled.Load() {
-			fail("o%d is left marked as scheduled (Enqueue accepted it) but it was never handed to BatchWrite: stranded in the queue of a stopped writer", o.id)
+			fail("o%d is still marked as scheduled after everything has stopped: Enqueue accepted it (or the writer never reset the flag) but no BatchWrite follows, e.g. it is stranded in the queue of a stopped writer", o.id)
 		}
 		if o.skipped.Load() > 0 {
 			labels["enqueue_of_already_scheduled_object"] = true
